@@ -41,14 +41,15 @@ impl<'n> TryFromNode<'n> for Field {
 
         let is_attribute = node.tag_name().name() == "attribute";
         let parent_is_optional = node.parent().and_then(|n| n.attribute("minOccurs")) == Some("0");
+        let is_choice = node.parent().is_some_and(|n| n.tag_name().name() == "choice");
         let is_optional = if is_attribute {
             node.attribute("use") != Some("required")
         } else {
-            node.attribute("minOccurs") == Some("0") || parent_is_optional
+            // only one branch of a choice is present at a time
+            node.attribute("minOccurs") == Some("0") || parent_is_optional || is_choice
         };
         let parent_is_vec = may_repeat(node.parent().and_then(|n| n.attribute("maxOccurs")));
         let is_vec = may_repeat(Node::attribute(&node, "maxOccurs")) || parent_is_vec;
-        let is_choice = node.parent().is_some_and(|n| n.tag_name().name() == "choice");
 
         // check if this is an any type
         if node.tag_name().name() == "any" {
